@@ -5,7 +5,8 @@
 //! retainable types, FB and class instances with state (nested FB instances, base-class
 //! chain; RETAIN/PERSISTENT ones at global level), AT %I/%Q variables at global, program and FB
 //! level, VAR_ACCESS paths, tasks with INTERVAL/SINGLE and FB associations) plus a history
-//! of ops {Cycle(inputs, dt), Input, Restart(Warm|Cold), PowerCycle, Fault}.
+//! of ops {Cycle(inputs, dt), Input, Restart(Warm|Cold), PowerCycle (save, new runtime, load),
+//! PowerLoss (no save, new runtime, same store, load), restart_with_retain, Fault}.
 //!
 //! Oracle: at every restart-type op a *reference runtime* R is built freshly from the same
 //! sources. Cold: R is left as built. Warm / PowerCycle: the values the RETAIN/PERSISTENT
@@ -57,6 +58,7 @@ pub fn info() -> PropertyInfo {
             "VAR_CONFIG initial values, %M bindings and restart_with_retain ops are generated unless their (fixed) findings are re-opened",
             "initialisers never read other variables (whether a non-retained variable initialised from a RETAIN global sees the retained or the initial value after a warm restart is not stated by the property)",
             "power cycle in the quick tier = save -> new Runtime from the same sources -> load through FileRetainStore inside one process; the thorough tier additionally loads the file in a separate tpv process and compares its dump",
+            "power loss = the runtime is dropped without a save, a new runtime is built, the same store file is attached and loaded. What the store must hold is derived from the property at the specified synchronisation points only: explicit save_retain_store, the save of a power cycle, and restart_with_retain (afterwards the store has to agree with the restarted memory: initial values after Cold, the kept values after Warm); a store never written restores nothing. When a periodic save interval is configured, any cycle since the last synchronisation makes the store contents undetermined (the time of a periodic save is not specified) and only the non-retained variables are demanded after the load",
         ],
         workers_quick: 8,
         workers_thorough: 16,
@@ -93,6 +95,10 @@ pub enum Op {
     RestartWithRetain { cold: bool },
     /// save the retain store now (hand-written reproducers)
     SaveStore,
+    /// power loss: the runtime is dropped as it is (NO save), a new runtime is built from the
+    /// same sources, the SAME store is attached and loaded - what comes back is whatever the
+    /// store held after its last synchronisation
+    PowerLoss,
 }
 
 #[derive(Clone, Debug, Serialize, Deserialize)]
@@ -434,6 +440,8 @@ enum Kind {
     Cold,
     Warm,
     Power,
+    /// power loss without a save
+    Loss,
 }
 
 struct Reference {
@@ -468,6 +476,7 @@ fn compare(
             "{what}: {part} differ from the {} after the {:?} restart at op {} - {d}",
             match r.kind {
                 Kind::Cold => "freshly built runtime",
+                Kind::Loss => "model (fresh runtime + the RETAIN/PERSISTENT values the store must hold since its last synchronisation)",
                 _ => "model (fresh runtime + values the RETAIN/PERSISTENT variables had before)",
             },
             r.kind,
@@ -526,15 +535,32 @@ pub fn run_scenario(sc: &Scenario, probe: &mut Probe, opts: RunOpts) -> Result<(
     let mut restarts = 0usize;
     let mut store_for_rwr: Option<std::path::PathBuf> = None;
     let mut to_remove: Vec<std::path::PathBuf> = Vec::new();
+    // periodic save interval of the configured store in ms (negative = no periodic save)
+    let mut cur_interval: i64 = -1;
+    // What the store must contain (retained values) according to the property and the
+    // specified synchronisation points: explicit save, the save of a power cycle, and
+    // restart_with_retain (after which the store has to agree with the restarted memory:
+    // initial values after Cold, the kept values after Warm). None = not determined, because
+    // a periodic save may or may not have happened since (its timing is not specified).
+    // An empty list = nothing stored yet.
+    let mut store_known: Option<Vec<(String, Captured)>> = Some(Vec::new());
+    let interval_arg = |ms: i64| {
+        if ms < 0 {
+            None
+        } else {
+            Some(Duration::from_millis(ms))
+        }
+    };
 
     if let Some(ms) = sc.store_interval_ms {
         let path = store_path();
         to_remove.push(path.clone());
         a.runtime_mut().set_retain_store(
             Some(Box::new(FileRetainStore::new(&path))),
-            if ms < 0 { None } else { Some(Duration::from_millis(ms)) },
+            interval_arg(ms),
         );
         store_for_rwr = Some(path);
+        cur_interval = ms;
     }
 
     let result = (|| -> Result<(), String> {
@@ -543,6 +569,9 @@ pub fn run_scenario(sc: &Scenario, probe: &mut Probe, opts: RunOpts) -> Result<(
                 Op::Cycle { inputs, dt_ns } => {
                     let ea = do_cycle(&mut a, sc, inputs, *dt_ns);
                     cycles += 1;
+                    if store_for_rwr.is_some() && cur_interval >= 0 {
+                        store_known = None;
+                    }
                     if ea.is_empty() {
                         probe.label("cycle=ok");
                     } else {
@@ -586,10 +615,76 @@ pub fn run_scenario(sc: &Scenario, probe: &mut Probe, opts: RunOpts) -> Result<(
                         a.runtime_mut()
                             .set_retain_store(Some(Box::new(FileRetainStore::new(&path))), None);
                         store_for_rwr = Some(path);
+                        cur_interval = -1;
                     }
                     a.runtime_mut()
                         .save_retain_store()
                         .map_err(|e| format!("op {i}: save_retain_store failed: {e:?}"))?;
+                    store_known = Some(capture_retained(&a, sc));
+                }
+                Op::PowerLoss => {
+                    restarts += 1;
+                    let before = dump(a.runtime());
+                    let ret_changed = retained
+                        .iter()
+                        .any(|k| before.vars.get(*k) != fresh.vars.get(*k));
+                    let non_changed = before
+                        .vars
+                        .iter()
+                        .any(|(k, v)| !retained.contains(k) && fresh.vars.get(k) != Some(v));
+                    let mut b = build(&sc.source)
+                        .map_err(|e| format!("harness: rebuild failed: {e}"))?;
+                    if let Some(path) = &store_for_rwr {
+                        b.runtime_mut().set_retain_store(
+                            Some(Box::new(FileRetainStore::new(path))),
+                            interval_arg(cur_interval),
+                        );
+                        b.runtime_mut()
+                            .load_retain_store()
+                            .map_err(|e| format!("op {i}: load_retain_store failed: {e:?}"))?;
+                    }
+                    a = b;
+                    probe.label("restart=power_loss");
+                    facts.push(RestartFacts {
+                        ret_changed,
+                        non_changed,
+                        cycles_before: cycles,
+                        exercised_after: false,
+                    });
+                    match &store_known {
+                        Some(values) => {
+                            probe.label(if values.is_empty() {
+                                "power_loss=store_empty"
+                            } else {
+                                "power_loss=store_known"
+                            });
+                            let mut r = build(&sc.source)
+                                .map_err(|e| format!("harness: rebuild failed: {e}"))?;
+                            inject(&mut r, values);
+                            let r = Reference {
+                                h: r,
+                                kind: Kind::Loss,
+                                at_op: i,
+                            };
+                            compare(&a, &r, sc, &format!("op {i} (PowerLoss)"), true, false)?;
+                            reference = Some(r);
+                        }
+                        None => {
+                            // a periodic save may have intervened: only what the store cannot
+                            // influence is demanded
+                            probe.label("power_loss=store_undetermined");
+                            let now = dump(a.runtime());
+                            for (k, v) in &fresh.vars {
+                                if !retained.contains(k) && now.vars.get(k) != Some(v) {
+                                    return Err(format!(
+                                        "op {i} (PowerLoss): non-retained {k} = {:?} after loading the store, declared initial value {v}",
+                                        now.vars.get(k)
+                                    ));
+                                }
+                            }
+                            reference = None;
+                        }
+                    }
                 }
                 Op::Restart { .. } | Op::PowerCycle | Op::RestartWithRetain { .. } => {
                     restarts += 1;
@@ -631,6 +726,7 @@ pub fn run_scenario(sc: &Scenario, probe: &mut Probe, opts: RunOpts) -> Result<(
                                     None,
                                 );
                                 store_for_rwr = Some(path);
+                                cur_interval = -1;
                             }
                             a.restart_with_retain(mode).map_err(|e| {
                                 format!("op {i}: restart_with_retain({mode:?}) failed: {e:?}")
@@ -638,20 +734,30 @@ pub fn run_scenario(sc: &Scenario, probe: &mut Probe, opts: RunOpts) -> Result<(
                             probe.label("restart=with_retain");
                         }
                         _ => {
-                            let path = store_path();
-                            to_remove.push(path.clone());
-                            a.runtime_mut().set_retain_store(
-                                Some(Box::new(FileRetainStore::new(&path))),
-                                None,
-                            );
+                            let path = match &store_for_rwr {
+                                Some(p) => p.clone(),
+                                None => {
+                                    let path = store_path();
+                                    to_remove.push(path.clone());
+                                    a.runtime_mut().set_retain_store(
+                                        Some(Box::new(FileRetainStore::new(&path))),
+                                        None,
+                                    );
+                                    cur_interval = -1;
+                                    path
+                                }
+                            };
+                            // no mark_retain_dirty(): an explicit save must persist the
+                            // live values whatever the dirty flag says
                             a.runtime_mut()
                                 .save_retain_store()
                                 .map_err(|e| format!("op {i}: save_retain_store failed: {e:?}"))?;
+                            store_known = Some(captured.clone());
                             let mut b = build(&sc.source)
                                 .map_err(|e| format!("harness: rebuild failed: {e}"))?;
                             b.runtime_mut().set_retain_store(
                                 Some(Box::new(FileRetainStore::new(&path))),
-                                None,
+                                interval_arg(cur_interval),
                             );
                             b.runtime_mut()
                                 .load_retain_store()
@@ -681,6 +787,10 @@ pub fn run_scenario(sc: &Scenario, probe: &mut Probe, opts: RunOpts) -> Result<(
                                 return Err(format!("harness: injection of {k} into the model failed"));
                             }
                         }
+                    }
+                    if matches!(op, Op::RestartWithRetain { .. }) {
+                        // the store has to agree with the restarted memory (the model runtime)
+                        store_known = Some(capture_retained(&r, sc));
                     }
                     let r = Reference {
                         h: r,
